@@ -65,8 +65,8 @@ class LoopSpec(object):
                       detected scalars are added to it)
     """
 
-    def __init__(self, inv, havoc=None, locals_=(), world=()):
-        self.inv, self.havoc, self.locals, self.world = inv, havoc, tuple(locals_), tuple(world)
+    def __init__(self, inv, havoc=None, locals_=(), world=(), prune=None):
+        self.inv, self.havoc, self.locals, self.world, self.prune = inv, havoc, tuple(locals_), tuple(world), prune
 
 
 class Contract(object):
@@ -262,6 +262,8 @@ class Lib(object):
             h.w[k] = fresh(k, h.w[k].sort())
         if spec.havoc:
             spec.havoc(ex, h)
+        if spec.world and spec.prune:
+            spec.prune(h)
         h.mut += 1
         for nm, f in invs(h):
             h.assume(f)
